@@ -27,7 +27,9 @@ EXPLANATION = (
     "left-aligned and the reverse word is their reverse complement, whatever the sequence - hence sliding value = value "
     "computed from scratch, and (with K1) canonical = min of the two packings; (K6) reverse_complement_kmer maps "
     "w1..wk to ~wk..~w1 for every k and is an involution, in the same domain (strand symmetry of canonical_kmer follows "
-    "with K1).  The evaluation is exact or refuses (carry between slots, odd shift, mask through a slot).")
+    "with K1).  The evaluation is exact or refuses (carry between slots, odd shift, mask through a slot).  (K7) the slide "
+    "itself (enumerate_kmers) is interpreted concretely against from-scratch windows on a finite domain that holds a "
+    "sequence of exactly k bases for every k.")
 UNDECIDED = "that callers pass symbols 0..3 only outside the loops covered by K3; k outside 1..=32 (rejected by the CLI); Kmer::from_values / swap_dir_rc / get_symbol (not used to build windows)"
 
 K = "ragc_core::kmer::"
